@@ -142,6 +142,7 @@ class Fn:
         self.params = {}       # name -> kind
         self.bindings = {}     # name -> list of ("expr", node) | ("kind", kind) | ("aug", target_name, value node)
         self.lambdas = {}      # name -> list of Lambda nodes bound to it
+        self.nested_defs = {}  # name -> list of nested FunctionDef nodes of that name
         self.effects = []
         self.calls = []
         self.self_name = None
@@ -228,6 +229,7 @@ class Fn:
                     self.add_binding((al.asname or al.name).split(".")[0], ("kind", ("KOther", "import")))
             elif isinstance(n, ast.FunctionDef):
                 self.add_binding(n.name, ("kind", ("KOther", "nested-function")))
+                self.nested_defs.setdefault(n.name, []).append(n)
                 self.bind_params(n.args, False, outer=False)
             elif isinstance(n, ast.Lambda):
                 self.bind_params(n.args, False, outer=False)
@@ -328,6 +330,18 @@ class Fn:
                             out |= self.kinds(l.body, seen)
                         if all(k[0] == "KFresh" for k in out):
                             return out
+                    # a nested `def` bound exactly once and nowhere rebound, every return of which hands back an
+                    # object allocated in that call (the same thing as a lambda with a fresh body)
+                    defs = self.nested_defs.get(f.id, [])
+                    if len(defs) == 1 and len(self.bindings.get(f.id, [])) == 1 and f.id not in self.params:
+                        rets = [r for r in ast.walk(defs[0]) if isinstance(r, ast.Return)]
+                        inner = [d for d in ast.walk(defs[0]) if isinstance(d, (ast.FunctionDef, ast.Lambda)) and d is not defs[0]]
+                        if rets and not inner and all(r.value is not None for r in rets):
+                            out = set()
+                            for r in rets:
+                                out |= self.kinds(r.value, seen)
+                            if out and all(k[0] == "KFresh" for k in out):
+                                return out
                     return {("KOther", "call:" + f.id)}
                 if f.id in FRESH_BUILTINS:
                     return {("KFresh", f.id)}
